@@ -17,6 +17,9 @@ def gen_contract(r, is_async, allow_forms=True):
         e = r.choice(ERROR_FORMS)
         if e != "default":
             c["error"] = e
+        if r.random() < 0.12:
+            # the condition is not a plain function: a functools.partial binding an extra keyword, or a callable object
+            c["callform"] = r.choice(["partial", "object"])
     return c
 
 
